@@ -15,7 +15,8 @@ TB = [
     "hand-written model lean/SmVerif/Model/SketchParams.lean of _parse_params_str / _signatures_for_sketch_factory / ComputeParameters / build_template / signature_first_mh tied to /repo by the sketch stream (in-process Python API)",
     "translator harness/translators/sketch.py: DEFAULTS, DEFAULT_MMHASH_SEED, the x3 multiplier, the order of the item tests of _parse_params_str, the molecule order and builder calls of build_template, ComputeParameters defaults (Rust and Python), and which of the two known shapes (repaired by 779da1d / as first found) the four D14 sites of KmerMinHashBTree have; theorem source_has_repair fails to build if they are not in the repaired shape",
     "Rust std BTreeSet/BTreeMap (insert/remove/entry/union/iteration order), serde_json, cffi marshalling; Python int()/float() on ASCII strings (non-ASCII parameter strings are outside the model)",
-    "md5 is not modelled (pre-image compared; the harness applies hashlib.md5); hashing of sequences (C02) is not part of this model: factory_eq_direct is stated over the list of hashes a sequence yields, and the sketch stream compares real factory-built sketches with real directly-created sketches on generated FASTA records",
+    "md5 is not modelled (pre-image compared; the harness applies hashlib.md5); the sequence -> hashes path is C02's model (Model/SeqToHashes.lean, hash function a parameter in the theorems, Model/Murmur3.lean in the driver): sketch_eq_direct_sequences composes it with the two sketch models, and the sketch stream's feed/names ops have the Lean driver compute every hash of every generated record itself and compare hashes, abundances and md5 with the real factory-built and directly-created sketches",
+    "hand-written decision model lean/SmVerif/Model/SketchNames.lean of _compute_individual / _compute_merged / set_sig_name (grouping of records into signatures, names, recorded file name), tied to /repo by `names` ops that run the real _execute_sketch in-process on temp FASTA files under .build/tmp",
     "Stable (max_hash_for_scaled . scaled_for_max_hash = id on the threshold) is a hypothesis of the conversion theorems; proved here by kernel evaluation for 13 common scaled values, in general it is C03's theorem for scaled <= 2^31",
 ]
 AS = ["sketches are num or scaled, not both (Excl): proved for everything the factory builds (factory_builds_excl); the Rust constructors also accept both, where KmerMinHash overgrows (C01 finding) and the two types disagree",
@@ -23,13 +24,15 @@ AS = ["sketches are num or scaled, not both (Excl): proved for everything the fa
       "the first divergence of a twin history is the one reported (afterwards the twins are different objects)"]
 RULE = ("twin stream: histories of 1..50 ops (add, add_hash_with_abundance incl. 0, add_many, add_many_with_abund, remove_many, clear, merge, "
         "add_from, downsample_scaled, From conversions in both directions, serde round trip, md5, count_common, intersection_size) over "
-        "2-4 handles each holding a KmerMinHash and a KmerMinHashBTree, hash pool biased to 0, 1, max_hash-1/max_hash/max_hash+1, 2^63, "
+        "(plus enable/disable_abundance, set_hash_function, downsample_max_hash) over 2-4 handles each holding a KmerMinHash and a KmerMinHashBTree, hash pool biased to 0, 1, max_hash-1/max_hash/max_hash+1, 2^63, "
         "2^64-1; num in {1,2,3,5,20} or scaled from a boundary pool; flavour 'excl' (3/4 of the cases) runs every operation in every order "
         "on sketches that are num or scaled (the former D14 classes included), 'any' also creates sketches that are both (D14e); "
         "non-trivial = >= 3 ops changed an observed state; sketch stream: parameter strings from a grammar (1-3 -p groups, repeated k, "
         "every moltype, scaled incl. 1/93/99/186, num, abund/noabund, seeds up to 2^64-1, Python int() spellings, ~60 malformed strings) "
         "through parse / factory / sig.minhash / JSON exits, and feed ops adding generated DNA (invalid characters, short records, lower "
-        "case) or protein records to factory-built and directly-created sketches; non-trivial = a fed sketch holds >= 2 hashes; "
+        "case) or protein records to factory-built and directly-created sketches (the model computes the same hashes with its own "
+        "Murmur3), and names ops: 1-3 FASTA files (some empty) through the real _execute_sketch in default / --name-from-first / "
+        "--singleton / --merge mode; non-trivial = a fed sketch holds >= 2 hashes; "
         "distinct = distinct op lists")
 
 
@@ -41,7 +44,7 @@ def classify(case, impl, model, k):
 def run_sketch_stream(chk, pkg, n):
     cases = streamlib.corpus_cases("C14-sketch")
     for i in range(n):
-        cases.append(sketch.gen_case(chk.rng, ["grammar", "feed", "feed"][i % 3]))
+        cases.append(sketch.gen_case(chk.rng, ["grammar", "feed", "feed", "names"][i % 4]))
     res = streamlib.run_cases(sketch, cases, pkg, procs=16, per_proc_min=10)
     distinct = set()
     opcount = {}
@@ -191,7 +194,7 @@ def extra(chk, pkg):
     if chk.replay:
         return
     thorough = chk.tier == "thorough"
-    d = run_sketch_stream(chk, pkg, 12000 if thorough else 900)
+    d = run_sketch_stream(chk, pkg, 5000 if thorough else 600)
     chk.cov["distinct_nontrivial_sketch_stream"] = d
     if thorough:
         run_cli(chk, pkg, 150)
